@@ -50,7 +50,8 @@ type result struct {
 	Out    string `json:"out"`  // ok | err | panic | abort | hang
 	Msg    string `json:"msg"`  // panic message / error text
 	Term   string `json:"term"` // Coq term of the decoded value (out == ok)
-	Tag    string `json:"tag"`  // sub-class of the decoded value, part of the violation kind
+	Tag    string `json:"tag"`  // sub-class of the decoded value, part of the violation kind (before .use)
+	Sub    string `json:"sub"`  // sub-class of the decoded value, part of the violation kind (after .use.)
 	Use    string `json:"use"`  // ok | panic
 	UseAt  string `json:"useAt"`
 	UseMsg string `json:"useMsg"`
@@ -409,7 +410,7 @@ func run(c *vkit.Collector, rng *vkit.Rng, budget int) {
 			if r.Use != "ok" {
 				rep["query"] = r.UseAt
 				rep["detail"] = tail(r.UseMsg, 300)
-				c.Violate(kn+r.Tag+".use."+r.UseAt, "a decoded value panics when queried: "+tail(r.UseMsg, 120), rep)
+				c.Violate(kn+r.Tag+".use."+r.Sub+r.UseAt, "a decoded value panics when queried: "+tail(r.UseMsg, 120), rep)
 			}
 		case "err":
 			c.Check(kn+" err "+inp.Label, vkit.App("Z.eqb", vkit.App("result_class", vkit.App(fn, bt)), "1%Z"))
